@@ -19,6 +19,9 @@ type Val struct {
 	L     []string
 	Const *big.Int // untyped integer constant (T may be nil)
 	Bad   bool     // value could not be modelled (havoc)
+	// QV/QShift: the value is <quantifier bound variable QV> + QShift (contract expressions only)
+	QV     string
+	QShift string
 }
 
 type Mode int
